@@ -92,4 +92,13 @@ example : readCsv (printCsv [[[97], [98, 34, 99], []], [], [[120, 10, 121]], [[]
     = some [[[97], [98, 34, 99], []], [], [[120, 10, 121]], [[]]] :=
   csv_read_print _ (by decide)
 
+/-! ### [audit] additions -/
+
+-- [audit] `read_print_json5_bmp` is about the PRE-FIX JSON5 loader (`readJson5` = json5 library alone).  /repo commit 1bf0fe3
+-- made `JSON5.build_tree` recombine surrogate pairs; the driver models that loader by `readDoc true` (= `readJson`, flag
+-- `comb` probed by the harness).  Under the current loader the hypothesis `valid5` is the wrong one: the document below
+-- satisfies `valid5` but does not round-trip (it is not `valid`; no loader produces it).
+example : (JVal.str [55296, 56320]).valid5 = true ∧
+    readJson (printJson (.str [55296, 56320])) = some (.str [65536]) := ⟨by decide, by rfl⟩
+
 end GtModel.C12
